@@ -225,25 +225,23 @@ Proof.
 Qed.
 
 (* ---------------- HuffmanCompressor ---------------- *)
-(* Trained on any corpus (syms = its distinct bytes, in the order of the frequency array; heap = whatever tree the
-   BinaryHeap loop built), every payload over those symbols shorter than 2^32 bytes is compressed, and the frame is
-   decoded by every instance (the tree travels in the header): u32 tree size, the serialised table in any HashMap order
-   (u16 entry count, u8 symbol, u8 code length, packed bits), u32 original size, packed code bits. *)
-Theorem huffman_compressor_roundtrip_proof :
-  forall syms heap ord1 ord2 x,
-    (length syms <= 256)%nat -> NoDup syms -> heap_run (map Leaf syms) heap ->
+(* the frame law: whatever payload the instance accepts, every instance decodes the frame *)
+Lemma huffman_frame_law syms heap ht ord1 ord2 :
+    (length syms <= 256)%nat -> NoDup syms -> heap_run (map Leaf syms) heap -> ht_from_heap syms heap = Some ht ->
     (forall t, Permutation (ord1 t) t) -> (forall t, Permutation (ord2 t) t) ->
-    (forall s, In s x -> In s syms) -> nlen x < W32 ->
-    exists ht z, ht_from_heap syms heap = Some ht /\
-      huffc_compress (huff_new_from ord1 ht) x = Some z /\
-      forall other, huffc_decompress ord2 other z = Some x.
+    forall x z, nlen x < W32 -> huffc_compress (huff_new_from ord1 ht) x = Some z ->
+    forall other, huffc_decompress ord2 other z = Some x.
 Proof.
-  intros syms heap ord1 ord2 x Hlen Hnd Hrun Ho1 Ho2 Hsub Hx.
-  destruct (from_frequencies_roundtrip_proof syms heap x Hlen Hrun Hsub) as (ht & b & Hht & Henc & _).
-  exists ht. destruct x as [|x0 x'].
-  { exists []. split; [exact Hht|]. split; [reflexivity|]. intros other. reflexivity. }
+  intros Hlen Hnd Hrun Hht Ho1 Ho2 x z Hx Hz other.
+  destruct x as [|x0 x'].
+  { unfold huffc_compress, huff_compress in Hz. injection Hz as <-. reflexivity. }
   set (x := x0 :: x') in *.
-  assert (Hsy : syms <> []) by (intros E; subst syms; apply (Hsub x0); now left).
+  assert (Henc : exists b, huff_encode ht x = Some b).
+  { unfold huffc_compress, huff_new_from, huff_compress in Hz. cbn [hc_bytes hc_tree] in Hz. unfold x in Hz at 1. fold x in Hz.
+    destruct (huff_encode ht x) as [b|]; [eexists; reflexivity|discriminate]. }
+  destruct Henc as [b Henc].
+  assert (Hsy : syms <> []).
+  { intros E. subst syms. unfold ht_from_heap in Hht. injection Hht as <-. cbn in Henc. discriminate. }
   destruct (ht_from_heap_table syms heap ht Hlen Hnd Hrun Hht) as (Hkeys & Hpf & Hsc).
   specialize (Hpf Hsy). set (tb := ht_codes ht) in *. set (tb1 := ord1 tb).
   assert (Hp1 : Permutation tb1 tb) by apply Ho1.
@@ -267,13 +265,33 @@ Proof.
   { intros data zz He. rewrite nlen_length, Nat2N.id. apply huff_roundtrip_proof; [exact Hwf|].
     unfold huff_encode in *. cbn [ht_codes]. fold tb in He.
     rewrite (code_bits_ext tb1 tb); [exact He|]. intros s. apply get_code_perm; [exact Hp1|exact Hnd1]. }
-  unfold huffc_compress, huff_new_from. cbn [hc_bytes hc_tree]. fold tb. fold tb1. fold bytes.
-  assert (Hz : exists z, huff_compress bytes (huff_encode ht) x = Some z).
-  { unfold huff_compress. unfold x at 1. fold x. rewrite Henc. cbn [obind]. eexists; reflexivity. }
-  destruct Hz as [z Hz]. exists z. split; [exact Hht|]. split; [exact Hz|]. intros other.
+  unfold huffc_compress, huff_new_from in Hz. cbn [hc_bytes hc_tree] in Hz. fold tb in Hz. fold tb1 in Hz. fold bytes in Hz.
   unfold huffc_decompress.
   apply (huff_frame_roundtrip_proof hufftree bytes (huff_encode ht) (deser_tree ord2)
            (fun t0 payload n => huff_decode t0 payload (N.to_nat n)) (mkHT (Some t) tb1) Hdes Hcoder x z Hbl Hx Hz).
+Qed.
+
+(* Trained on any corpus (syms = its distinct bytes, in the order of the frequency array; heap = whatever tree the
+   BinaryHeap loop built), every payload over those symbols shorter than 2^32 bytes is compressed, and the frame is
+   decoded by every instance (the tree travels in the header): u32 tree size, the serialised table in any HashMap order
+   (u16 entry count, u8 symbol, u8 code length, packed bits), u32 original size, packed code bits. *)
+Theorem huffman_compressor_roundtrip_proof :
+  forall syms heap ord1 ord2 x,
+    (length syms <= 256)%nat -> NoDup syms -> heap_run (map Leaf syms) heap ->
+    (forall t, Permutation (ord1 t) t) -> (forall t, Permutation (ord2 t) t) ->
+    (forall s, In s x -> In s syms) -> nlen x < W32 ->
+    exists ht z, ht_from_heap syms heap = Some ht /\
+      huffc_compress (huff_new_from ord1 ht) x = Some z /\
+      forall other, huffc_decompress ord2 other z = Some x.
+Proof.
+  intros syms heap ord1 ord2 x Hlen Hnd Hrun Ho1 Ho2 Hsub Hx.
+  destruct (from_frequencies_roundtrip_proof syms heap x Hlen Hrun Hsub) as (ht & b & Hht & Henc & _).
+  exists ht.
+  assert (Hz : exists z, huffc_compress (huff_new_from ord1 ht) x = Some z).
+  { unfold huffc_compress, huff_new_from, huff_compress. cbn [hc_bytes hc_tree].
+    destruct x as [|x0 x']; [eexists; reflexivity|]. rewrite Henc. cbn [obind]. eexists; reflexivity. }
+  destruct Hz as [z Hz]. exists z. split; [exact Hht|]. split; [exact Hz|].
+  apply (huffman_frame_law syms heap ht ord1 ord2 Hlen Hnd Hrun Hht Ho1 Ho2 x z Hx Hz).
 Qed.
 
 (* the original-size field written through `as u16` (a layout that was tried) loses payloads of 64 KiB and more:
